@@ -4,13 +4,36 @@ package sequence
 
 import "sync/atomic"
 
+// The accessors below work whether the counter is declared as a bare uint64 (used with the
+// atomic functions) or as an atomic.Uint64: a change of that declaration in the code under test
+// must not stop the checks from building.
+
+func verifCounter(op func(p *uint64) uint64, opT func(p *atomic.Uint64) uint64) uint64 {
+	switch p := any(&seq).(type) {
+	case *uint64:
+		return op(p)
+	case *atomic.Uint64:
+		return opT(p)
+	}
+	panic("sequence: the counter has a type the verification accessors do not know")
+}
+
 // VerifReset makes the process-global counter look like that of a fresh process (optionally
 // already advanced to base): the simulator starts every world with it.
-func VerifReset(base uint64) { atomic.StoreUint64(&seq, base) }
+func VerifReset(base uint64) {
+	verifCounter(func(p *uint64) uint64 { atomic.StoreUint64(p, base); return 0 },
+		func(p *atomic.Uint64) uint64 { p.Store(base); return 0 })
+}
 
 // VerifAdvance draws n numbers at once: what a burst of other traffic in the process (another
 // database of the same process, say) does to the shared counter.
-func VerifAdvance(n uint64) { atomic.AddUint64(&seq, n) }
+func VerifAdvance(n uint64) {
+	verifCounter(func(p *uint64) uint64 { return atomic.AddUint64(p, n) },
+		func(p *atomic.Uint64) uint64 { return p.Add(n) })
+}
 
 // VerifPeek returns the current counter value.
-func VerifPeek() uint64 { return atomic.LoadUint64(&seq) }
+func VerifPeek() uint64 {
+	return verifCounter(func(p *uint64) uint64 { return atomic.LoadUint64(p) },
+		func(p *atomic.Uint64) uint64 { return p.Load() })
+}
